@@ -1,10 +1,13 @@
 (* Properties/C12.v — Static types predict the exported types.
-   PARTIAL: full type soundness (dtype_of env e = TOk t -> has_type (eval .. e) t for every
-   expression) is not proved; the theorems below cover literals, casts, comparisons, boolean
-   operators, integer arithmetic, Int / Int and counts.  The oracle (props/c12.py) compares the static
+   Operator level (all values, all accepted overloads of the enumeration): the result of every modelled
+   element-wise operator lies in the value family of the declared return type (operator_results_inhabit_their_family
+   + declared_return_types_are_the_result_families, the latter decided in the kernel over the REGENERATED
+   catalogue).  PARTIAL: the induction over whole expressions (dtype_of env e = TOk t -> the value of e lies in
+   the family of t) is not stated; mixed Int / Float operands of the polymorphic operators are outside the claim.  The oracle (props/c12.py) compares the static
    type of every exported column with the exported Polars dtype on both backends, and re-imports. *)
 From Coq Require Import List String NArith ZArith Bool.
-From PDT Require Import Model.Dtype Model.Conv Model.Value Model.Ops Model.Expr Model.Typing Proofs.TypeLemmas.
+From PDT Require Import Model.Dtype Model.Conv Model.Value Model.Ops Model.Expr Model.Typing Proofs.TypeLemmas
+     Model.Universe Model.Signature Model.Resolve Model.Enum Model.OverloadChecks Model.TypeFam Proofs.TypeFamLemmas Proofs.TypeFamEnum.
 From PDTGen Require Import Catalogue.
 Import ListNotations.
 
@@ -41,3 +44,30 @@ Print Assumptions int_truediv_is_float.
 Theorem counts_are_int : forall vs n, intish (agg Op_count vs n) = true /\ intish (agg Op_count_star vs n) = true.
 Proof. exact counts_are_int_proof. Qed.
 Print Assumptions counts_are_int.
+
+(* THE OPERATOR-LEVEL STATEMENT.  Semantic half, for ALL argument values: if the arguments lie in the families fs,
+   the result of the operator lies in the family ret_fam computes from fs (null and "no backend-independent
+   value" belong to every family). *)
+Theorem operator_results_inhabit_their_family : forall o vs fs f,
+  ret_fam o fs = Some f -> vs_in vs fs -> in_fam (ewise o vs) f = true.
+Proof. exact ewise_fam. Qed.
+Print Assumptions operator_results_inhabit_their_family.
+
+(* Catalogue half, over the regenerated signatures: the declared return type of every accepted overload of a
+   modelled operator is in that family *)
+Theorem declared_return_types_are_the_result_families : forall o args,
+  In o modelled_ewise -> In args (enum_args o) -> ret_fam_ok o args = true.
+Proof. exact declared_return_family_proof. Qed.
+Print Assumptions declared_return_types_are_the_result_families.
+
+(* together: a well-typed application evaluates into the family of its static type *)
+Theorem typed_operator_application_is_sound : forall o args r f vs,
+  In o modelled_ewise -> In args (enum_args o) -> accepted o args = Some r ->
+  ret_fam o (map fam_of args) = Some f ->
+  vs_in vs (map fam_of args) -> in_fam (ewise o vs) (fam_of r) = true.
+Proof. exact typed_application_proof. Qed.
+Print Assumptions typed_operator_application_is_sound.
+
+Example family_claims_are_made : N.ltb 20000 claim_count = true /\ ret_fam PDTGen.Catalogue.Op_truediv [FInt; FInt] = Some FFloat
+  /\ ret_fam PDTGen.Catalogue.Op_fill_null [FInt; FFloat] = None.
+Proof. split; [exact claims_exist|]. split; reflexivity. Qed.
